@@ -342,9 +342,14 @@ def pyIndex (l : List Str) (i : Int) : Option Str :=
   if 0 ≤ i then l[i.toNat]? else if -i ≤ l.length then l[(l.length - (-i).toNat)]? else none
 
 /-- the `try:` block of `_write_mmcif`: records of the original file selected by
-`atom_serial_number - 1`, kept only if their ids are the structure's, coordinates replaced.
+`atom_serial_number - 1`, kept only if the file's ids are pairwise distinct and the selected ones are the
+structure's, coordinates replaced.
 `none` = some exception → the freshly built columns are used -/
 def reuseOriginal (orig : Table) (atoms : List Atom) (data : Table) : Option Table := do
+  -- `fix:` the ids of the original file must be unique: with duplicates (serial numbers all 0, merged files)
+  -- position `id - 1` carries the id of several atoms and all of them would be written with one atom's records
+  let oids ← lookup orig "id".toList
+  if ¬ oids.Nodup then none
   let idx := atoms.map (fun a => a.serial - 1)
   let sel ← orig.mapM (fun kv => do pure (kv.1, ← idx.mapM (pyIndex kv.2)))
   let ids ← lookup sel "id".toList
@@ -519,6 +524,13 @@ def loadCifTable (t : Table) : Option (List Atom) := do
   convert raws
 
 def loadCif (text : Str) : Option (List Atom) := do loadCifTable (← parseCif text)
+
+/-- the sixteen column names `_load_mmcif` asks for: Cartn_x/y/z and the values of its `atom_site_mapping`
+(extracted from the source on every run and compared with this constant) -/
+def cifReadNames : List Str :=
+  ["Cartn_x", "Cartn_y", "Cartn_z", "group_PDB", "id", "label_atom_id", "label_alt_id", "label_comp_id", "label_asym_id",
+   "label_seq_id", "pdbx_PDB_ins_code", "occupancy", "B_iso_or_equiv", "pdbx_PDB_model_num", "type_symbol",
+   "pdbx_formal_charge"].map String.toList
 
 /-! ## filters of `Structure.from_file` -/
 
